@@ -28,6 +28,7 @@ type Program struct {
 	NoInit         map[string]bool // packages whose init function is not executed
 	RepoDir        string
 	NoIfConv       bool
+	MapOrderBudget int // max number of reversed map iterations per path under verifMapOrder(1)
 	Subst          map[*ssa.Function]*ssa.Function // verified-contract substitutions (callee -> harness contract function)
 	Shadow         bool // validate every symbolic operation against its concrete semantics under the path's model
 	Concrete       map[string]string // if set: nondet inputs take these concrete values (translator validation / debugging)
